@@ -22,7 +22,7 @@ import textwrap
 from vlib import core, refmatch
 
 ID = "C19"
-LEVEL = "differential_reference"
+LEVEL = "exploration"
 RULE = ("one case = one module (generated: functions/classes with arithmetic, calls, attributes, comparisons, "
         "if/elif chains, multi-line and lower-precedence operands, f-strings; or 1-3 definitions cut from a real "
         "file) x 5 patterns abstracted from its own sub-trees x 1 search region x 2-3 goals; non-trivial = pattern "
@@ -944,7 +944,8 @@ def causes_of(cx, pat, goal, goal_text, ref, full, strict, new_tree, expected):
         rm = ropebykey.get(_ref_match_key(m))
         if rm is not None:
             rr = tuple(rm.get_region())
-            if rr != tuple(m.region) and not _same_modulo_parens(src[rr[0]:rr[1]], src[m.region[0]:m.region[1]]):
+            if rr != tuple(m.region) and not (m.kind == "expr" and _same_modulo_parens(
+                    src[rr[0]:rr[1]], src[m.region[0]:m.region[1]])):
                 out.add("node-region-wrong|" + _region_culprit(cx, _boundary_node(rm, m)))
             for w in goal.names:
                 node = rm.get_ast(w)
